@@ -41,6 +41,10 @@ func (r *readWriter) Write(p []byte) (n int, err error) { return r.w.Write(p) }
 func Main(ctx context.Context, osenv *rsyncos.Env, args []string, cfg *rsyncdconfig.Config) (*rsyncstats.TransferStats, error) {
 	osenv.Logf("Main(osenv=%v, args=%q)", osenv, args)
 	pc := rsyncopts.NewContext(rsyncopts.NewOptionsWithGokrazyDefaults(osenv))
+	// A config is only passed in when Main runs a command line received from
+	// an SSH peer inside the daemon process (see below), which that peer must
+	// not be able to terminate with e.g. --version.
+	pc.ErrorOnExit = cfg != nil
 	if err := pc.ParseArguments(osenv, args[1:]); err != nil {
 		if pe, ok := err.(*rsyncopts.PoptError); ok &&
 			pe.Errno == rsyncopts.POPT_ERROR_BADOPT &&
